@@ -44,6 +44,10 @@ def make_script(expr, pos, context):
         s = ("stmt", "G", [N("1"), expr, lang.S("t")], [], [N("0")], "none")
     elif pos == "kw":
         s = ("stmt", "G", [N("0.5")], [("k", expr), ("j", N("7"))], [N("0"), N("1")], "sq")
+    elif pos == "two-sets":
+        # several register arguments with DIFFERENT register sets in one statement: each transform lists its own
+        other = B("/", Q(7), B("+", Q(5), N("4")))
+        s = ("stmt", "G", [expr, N("0.25"), B("-", Q(7), N("1"))], [("k", other), ("j", expr)], [N("1")], "none")
     else:
         s = ("stmt", "G", [expr, B("*", N("2"), expr)], [("k", expr)], [N("2")], "none")
     used = lang.names_used(expr)
@@ -112,7 +116,7 @@ def build(ctx):
         if light:
             perms = perms[:3]
         for rs in perms:
-            for pos in ("pos", "kw") + (("both",) if (not ctx.quick or k <= 2) and not light else ()):
+            for pos in ("pos", "kw") + (("both",) if (not ctx.quick or k <= 2) and not light else ()) + (("two-sets",) if (k <= 2 and not light and (not ctx.quick or rs == tuple(sorted(rs, key=str)))) else ()):
                 for context in ("plain", "after-measure", "loop") if not light else ("plain", "loop"):
                     if context == "after-measure" and pos != "pos":
                         continue
@@ -151,7 +155,7 @@ def run(ctx):
     cov = {"states": len(cases), "transitions": schedules, "traces_validated_against_impl": schedules,
            "samples": [repr(c) for c in common.sample(cases, 5)],
            "evaluations": schedules, "distinct_nontrivial": multi,
-           "rule": "cases = expression shape x every ordered choice of distinct registers x {positional, keyword, both} x {plain, after a measurement, inside a for-loop with the loop variable as coefficient}; "
+           "rule": "cases = expression shape x every ordered choice of distinct registers x {positional, keyword, both, next to arguments over other registers} x {plain, after a measurement, inside a for-loop with the loop variable as coefficient}; "
                    "for every case all combinations of iteration orders at every symbol-set iteration made from blackbird code (k! per site) are executed (`transitions` = complete schedules); "
                    "non-trivial = cases with more than one schedule; `listing_orders_seen` = histogram of how many distinct register listing orders were observed per case",
            "cases": len(cases), "cases_with_gt1_schedule": multi, "capped_cases": capped, "listing_orders_seen": dict(order_hist), "exhaustive": capped == 0}
